@@ -360,7 +360,51 @@ def call(ev, name, args, kwargs, lineno, env):
             out.repeat_of = (vals, cnt, own)
             return out
         raise Unsupported("np.repeat with these operands (line %d)" % lineno)
+    if name == "unique":
+        return unique(ev, args, kwargs, lineno)
     raise Unsupported("numpy function %s (line %d)" % (name, lineno))
+
+
+def unique(ev, args, kwargs, lineno):
+    """np.unique(a, return_inverse=, return_counts=) of a 1-D integer array (A4):
+    u strictly increasing, every u[k] occurs in a, u[inverse[e]] == a[e], counts[k] = occ(u[k]) where
+    occ(v) >= 1 is the number of positions of a holding v (a spec-level symbol recorded in path.notes as
+    ("unique", {...})).  For a compressed operand the inverse stays compressed by the same mask."""
+    a = args[0]
+    if len(args) > 1 or set(kwargs) - {"return_inverse", "return_counts"} or not is_array(a) or a.kind != "i":
+        raise Unsupported("np.unique with these operands (line %d)" % lineno)
+    cid = next(V._counter)
+    U = fresh("nunique", "int")
+    uf = z3.Function("ukeys!%d" % cid, z3.IntSort(), z3.IntSort())
+    inv = z3.Function("uinv!%d" % cid, z3.IntSort(), z3.IntSort())
+    wit = z3.Function("uwit!%d" % cid, z3.IntSort(), z3.IntSort())
+    occ = z3.Function("uocc!%d" % cid, z3.IntSort(), z3.IntSort())
+    k, k2, e = fresh("k"), fresh("k2"), fresh("e")
+    af = a.f
+    if isinstance(a, Comp):
+        mf = a.mask.f
+        dom = lambda j: z3.And(j >= 0, B(compare("<", j, a.mask.n)), B(mf(j)))
+    else:
+        dom = lambda j: z3.And(j >= 0, B(compare("<", j, a.n)))
+    facts = [U >= 0,
+             z3.ForAll([k, k2], z3.Implies(z3.And(k >= 0, k < k2, k2 < U), uf(k) < uf(k2))),
+             z3.ForAll([e], z3.Implies(dom(e), z3.And(inv(e) >= 0, inv(e) < U, uf(inv(e)) == V.I(af(e)),
+                                                      occ(V.I(af(e))) >= 1))),
+             z3.ForAll([k], z3.Implies(z3.And(k >= 0, k < U), z3.And(dom(wit(k)), V.I(af(wit(k))) == uf(k),
+                                                                     occ(uf(k)) >= 1)))]
+    ev.path.facts.extend(facts)
+    u = Arr(U, lambda j: uf(V.I(j)), "i")
+    u.member_fn = lambda x: member(a, x)
+    out = [u]
+    if kwargs.get("return_inverse"):
+        if isinstance(a, Comp):
+            out.append(Comp(a.mask, lambda j: inv(V.I(j)), "i"))
+        else:
+            out.append(Arr(a.n, lambda j: inv(V.I(j)), "i"))
+    if kwargs.get("return_counts"):
+        out.append(Arr(U, lambda j: occ(uf(V.I(j))), "i"))
+    ev.path.notes.append(("unique", {"of": a, "keys": u, "n": U, "inv": inv, "occ": occ, "lineno": lineno}))
+    return tuple(out) if len(out) > 1 else u
 
 
 def prefix_sum(ev, a):
